@@ -1,5 +1,5 @@
 import Lean.Data.Json
-import GsModel.Diff.Analyser
+import GsModel.Diff.Report
 /-
   Line-protocol encoding of the diff model's inputs and outputs (driver only; nothing here is proved about).
 -/
@@ -106,5 +106,19 @@ def outcomeJson (o : Outcome (List Diff)) : List (String × Json) :=
   | .ok ds => [("r", Json.str "ok"), ("diffs", Json.arr (ds.map diffJson).toArray)]
   | .panic w => [("r", Json.str "panic"), ("why", Json.str w)]
   | .fuel => [("r", Json.str "fuel")]
+
+/-- a report entry as sent by the harness: {url, method, response, node:[{f,t,a}], code:int, compat:int, info} -/
+def entry (j : Json) : Option Diff :=
+  match Code.all[nat j "code"]?, Compat.all[nat j "compat"]? with
+  | some c, some k =>
+    some { loc := { url := str j "url", method := str j "method", response := nat j "response",
+                    node := (arr j "node").map (fun n => { field := str n "f", typeName := str n "t", isArray := bool n "a" }) },
+           code := c, compat := k, info := str j "info" }
+  | _, _ => none
+
+def entryJson (d : Diff) : Json :=
+  Json.mkObj [("url", Json.str d.loc.url), ("method", Json.str d.loc.method), ("response", Json.num d.loc.response),
+    ("node", Json.arr (d.loc.node.map (fun n => Json.mkObj [("f", Json.str n.field), ("t", Json.str n.typeName), ("a", Json.bool n.isArray)])).toArray),
+    ("code", Json.num d.code.toNat), ("compat", Json.num (compatNat d.compat)), ("info", Json.str d.info)]
 
 end Gs.Diff.J
